@@ -444,12 +444,13 @@ theorem ctbs_eq_rfc_sign (abbr : Bool) (m : SignMsg) (signProtected : Bytes) (ex
     (hs : IsBstrEncoding signProtected signContent)
     (hblen : bodyContent.length < 18446744073709551616)
     (hslen : signContent.length < 18446744073709551616)
-    (hpl : m.payload = some payload) (hsigs : m.sigs ≠ []) :
+    (hpl : m.payload = some payload) (hsigs : m.sigs ≠ [])
+    (hall : m.sigs.any (fun s => blen s.sig = 0) = false) :
     countersignToBeSigned abbr (.sign m) signProtected ext =
       .ok (detEnc (countersignStructure (if abbr then "CounterSignature0" else "CounterSignature")
         bodyContent signContent (ext.getD []) payload none)) := by
   cases abbr <;>
-  simp [countersignToBeSigned, hm, hpl, hsigs, detBstr_spec _ _ hb hblen,
+  simp [countersignToBeSigned, hm, hpl, hsigs, hall, detBstr_spec _ _ hb hblen,
     detBstr_spec _ _ hs hslen, optBytesEnc, detEnc_countersign_none, encBstr_eq_detEnc,
     ctxCounterSignature0, ctxCounterSignature, utf8]
 
